@@ -301,6 +301,11 @@ func directoryListing(files []os.FileInfo, canGoUp bool, urlPath string, config 
 			}
 		}
 
+		// a hidden entry is neither listed nor counted
+		if config.Fs.IsHidden(f) {
+			continue
+		}
+
 		isDir := f.IsDir() || isSymlinkTargetDir(f, urlPath, config)
 
 		if isDir {
@@ -308,10 +313,6 @@ func directoryListing(files []os.FileInfo, canGoUp bool, urlPath string, config 
 			dirCount++
 		} else {
 			fileCount++
-		}
-
-		if config.Fs.IsHidden(f) {
-			continue
 		}
 
 		u := url.URL{Path: "./" + name} // prepend with "./" to fix paths with ':' in the name
